@@ -177,7 +177,7 @@ def run(ctx):
     from vf.draw import draw_stratified
     from vf.runner import case_hash, load_regress
     cases = load_regress(ctx.prop, name) + gen_cfg.alternate_histories(
-        draw_stratified(strata(), 12 if ctx.quick else 150, ctx.seed), ('origin', 'plain'))
+        draw_stratified(strata(), 16 if ctx.quick else 150, ctx.seed), ('origin', 'plain'))
     done = {}
 
     def check(case, workdir):
